@@ -82,6 +82,17 @@ type stampStore struct {
 	*testutil.EphemeralWalletStore
 	ctr    *atomic.Int64
 	stamps sync.Map // goroutine id -> last stamp
+	g      *gate
+}
+
+func (s *stampStore) Tip() (types.ChainIndex, error) {
+	s.g.enter("store.Tip")
+	return s.EphemeralWalletStore.Tip()
+}
+
+func (s *stampStore) AddBroadcastedSet(set wallet.BroadcastedSet) error {
+	s.g.enter("store.AddBroadcastedSet")
+	return s.EphemeralWalletStore.AddBroadcastedSet(set)
 }
 
 func gid() int64 {
@@ -93,6 +104,7 @@ func gid() int64 {
 }
 
 func (s *stampStore) UnspentSiacoinElements() (types.ChainIndex, []types.SiacoinElement, error) {
+	s.g.enter("store.UnspentSiacoinElements")
 	if s.ctr != nil {
 		s.stamps.Store(gid(), s.ctr.Add(1))
 	}
@@ -110,10 +122,51 @@ func (s *stampStore) take() int64 {
 // input of SplitUTXO; the real recommendation is ~1e19 H/byte, far above hastings-scale outputs).
 type feeManager struct {
 	*chain.Manager
+	g *gate
 	fee types.Currency
 }
 
-func (f *feeManager) RecommendedFee() types.Currency { return f.fee }
+func (f *feeManager) RecommendedFee() types.Currency {
+	f.g.enter("cm.RecommendedFee")
+	return f.fee
+}
+
+// every other call the wallet makes into the chain manager passes the gate (gate_test.go)
+func (f *feeManager) AddV2PoolTransactions(basis types.ChainIndex, txns []types.V2Transaction) (bool, error) {
+	f.g.enter("cm.AddV2PoolTransactions")
+	return f.Manager.AddV2PoolTransactions(basis, txns)
+}
+func (f *feeManager) TipState() consensus.State {
+	f.g.enter("cm.TipState")
+	return f.Manager.TipState()
+}
+func (f *feeManager) PoolTransactions() []types.Transaction {
+	f.g.enter("cm.PoolTransactions")
+	return f.Manager.PoolTransactions()
+}
+func (f *feeManager) V2PoolTransactions() []types.V2Transaction {
+	f.g.enter("cm.V2PoolTransactions")
+	return f.Manager.V2PoolTransactions()
+}
+func (f *feeManager) V2TransactionSet(basis types.ChainIndex, txn types.V2Transaction) (types.ChainIndex, []types.V2Transaction, error) {
+	f.g.enter("cm.V2TransactionSet")
+	return f.Manager.V2TransactionSet(basis, txn)
+}
+func (f *feeManager) UpdateV2TransactionSet(txns []types.V2Transaction, from, to types.ChainIndex) ([]types.V2Transaction, error) {
+	f.g.enter("cm.UpdateV2TransactionSet")
+	return f.Manager.UpdateV2TransactionSet(txns, from, to)
+}
+
+// gateSyncer is the mock syncer behind the gate.
+type gateSyncer struct {
+	*testutil.MockSyncer
+	g *gate
+}
+
+func (s *gateSyncer) BroadcastV2TransactionSet(index types.ChainIndex, txns []types.V2Transaction) error {
+	s.g.enter("syncer.BroadcastV2TransactionSet")
+	return s.MockSyncer.BroadcastV2TransactionSet(index, txns)
+}
 
 // namer allots the small integers the specification uses for outputs and transactions.
 type namer struct {
@@ -144,7 +197,8 @@ type world struct {
 	fm      *feeManager
 	es      *testutil.EphemeralWalletStore
 	ss      *stampStore
-	syncer  *testutil.MockSyncer
+	syncer  *gateSyncer
+	gate    *gate
 	w       *wallet.SingleAddressWallet
 	pk      types.PrivateKey
 	addr    types.Address
@@ -181,6 +235,7 @@ func (wd *world) options() []wallet.Option {
 	return []wallet.Option{
 		wallet.WithDefragThreshold(wd.cfg.Dt), wallet.WithMaxInputsForDefrag(wd.cfg.Mi),
 		wallet.WithMaxDefragUTXOs(wd.cfg.Md), wallet.WithReservationDuration(d),
+		wallet.WithDebounceInterval(time.Hour), // the wallet's own rebroadcast loop stays out of the sessions
 	}
 }
 
@@ -215,8 +270,9 @@ func newWorld(cfg Cfg, outs []Out, ctr *atomic.Int64, stub string) (*world, erro
 	wd.dbs = dbs
 	wd.cm = chain.NewManager(dbs, tipState)
 	wd.es = testutil.NewEphemeralWalletStore()
-	wd.ss = &stampStore{EphemeralWalletStore: wd.es, ctr: ctr}
-	wd.syncer = &testutil.MockSyncer{}
+	wd.gate = &gate{}
+	wd.ss = &stampStore{EphemeralWalletStore: wd.es, ctr: ctr, g: wd.gate}
+	wd.syncer = &gateSyncer{MockSyncer: &testutil.MockSyncer{}, g: wd.gate}
 	if err := wd.open(); err != nil {
 		return nil, err
 	}
@@ -273,7 +329,7 @@ func newWorld(cfg Cfg, outs []Out, ctr *atomic.Int64, stub string) (*world, erro
 }
 
 func (wd *world) open() error {
-	wd.fm = &feeManager{Manager: wd.cm}
+	wd.fm = &feeManager{Manager: wd.cm, g: wd.gate}
 	w, err := wallet.NewSingleAddressWallet(wd.pk, wd.fm, wd.ss, wd.syncer, wd.options()...)
 	if err != nil {
 		return err
